@@ -399,6 +399,11 @@ def r_feature(mod, rep, R='R5.2'):
              and str_parts(v)[2] in feat and str_parts(v)[3] == ']' for _, v in vals)
     other = [v for _, v in vals if not (str_parts(v) is not None and len(str_parts(v)) == 4)]
     ok = ok and all(v == A(N('self'), 'base') or str_parts(v) == [A(N('self'), 'base')] for v in other)
+    # whether the brackets are written is decided by the feature's text (empty or not) or by its value (== the absent feature),
+    # never by which object it is: equal atoms print alike
+    by_identity = [show(c)[:60] for st_, o_ in SymExec(a_str, unroll=1).run() for c, pol_, _ in st_.conds if c[0] == 'cmp' and c[1] in ('is', 'is not') and c[3] != C(None) and c[2] != C(None)]
+    rep.check(not by_identity, R, '%s:%s Atom.__str__' % (REL, a_str.lineno), 'atom:print:by-value', 'whether an atom prints its brackets depends on the value of its feature',
+              'Atom.__str__ decides by object identity (%s): an atom whose feature is equal to, but not the same object as, the default (a copy, an unpickled value, an explicit UnaryFeature()) prints `base[]`' % by_identity[:1])
     rep.check(ok, R, '%s:%s Atom.__str__' % (REL, a_str.lineno), 'atom:print', 'an atom with a feature prints as base[feature], without one as base',
               'Atom.__str__ returns %s' % [show(v)[:60] for _, v in vals])
     # functor: left slash right, every operand that is a functor in brackets
